@@ -627,9 +627,15 @@ func mergeAt(h *ssa.BasicBlock, old *State, p *Path) (*State, bool) {
 			continue
 		}
 		ev, ok := ef.env[k]
-		if !ok || !Same(ev, v) {
-			delete(rf.env, k)
-			changed = true
+		if !ok {
+			continue // not (re)defined on this path: keep the dominating definition
+		}
+		if !Same(ev, v) {
+			sym := &Term{Op: "phi", Aux: k.Name() + hdrTag + ":join", Typ: k.Type(), Src: k}
+			if !Same(v, sym) {
+				rf.env[k] = sym
+				changed = true
+			}
 		}
 	}
 	for _, in := range h.Instrs {
@@ -1218,7 +1224,7 @@ func (ex *explorer) simple(st *State, in ssa.Instruction) {
 	f := st.top()
 	switch in := in.(type) {
 	case *ssa.Alloc:
-		a := &Term{Op: "alloc", Aux: ex.instrID(in) + f.id + ":" + in.Comment, Typ: in.Type(), Src: in}
+		a := &Term{Op: "alloc", Aux: ex.instrID(in) + f.id + ":" + in.Comment, Typ: in.Type(), Src: in, Owner: in.Parent()}
 		f.env[in] = a
 		st.fresh[a.Key()] = true
 		et := in.Type().Underlying().(*types.Pointer).Elem()
